@@ -237,4 +237,24 @@ PROPS = {
         'assumptions': ['the for-loop variable and the loop body share one scope, and a gate/def body shares the scope of its parameters (as implemented)'],
         'partial': ['statement -> operations mapping and storage of results in the graph: correspondence only'],
     },
+    'C05': {
+        'coq': 'Props/C05.v',
+        'families': [
+            {'name': 'shape', 'args': {'quick': ['--exprs', 12000, '--stmts', 12000], 'thorough': ['--exprs', 600000, '--stmts', 600000]},
+             'shards': {'quick': 16, 'thorough': 16}, 'driver_args': []},
+        ],
+        'exhaustive': {'quick': False, 'thorough': False},
+        'rule': 'expressions: random trees to depth 6 over all 19 binary and 3 unary operators, index, call (1-2 arguments), cast, one-letter '
+                'identifiers and digits, printed with exactly the parentheses the OpenQASM 3 table requires (one third also with redundant '
+                'parentheses), as expression statement or declaration initializer; statements: 15 kinds (if with all block/single-statement '
+                'body combinations and optional else, while, for over range/stepped range/set/expression, gate and def definitions with 0-3 '
+                'parameters, declarations, gate calls with 0-3 modifiers/parameters and 1-4 operands, plain and indexed assignment, switch '
+                'with 1-3 cases and optional default, delay, barrier, io declarations, reset, measure assignment, qubit declarations) with '
+                'random constituent expressions; non-trivial = an operator or a statement',
+        'trusted_base': ['Model/Shape.v: the operator table and printer are the specification; abstraction of trees to shapes',
+                         'models of lexer, parser, tree builder (as for C01/C02)',
+                         'harness readers of the typed AST (oq3_syntax::ast accessors) and the reference roles of each statement template'],
+        'assumptions': ['identifiers and integers are single characters in the model expressions'],
+        'partial': ['unbounded-depth expressions and statement roles: correspondence / implementation oracle only'],
+    },
 }
